@@ -242,6 +242,7 @@ def run(chk):
         check_shared_arguments(chk, v, evalfns)
         # R9 no branch or loop of the evaluation closure is decided by an address
         check_address_independence(chk, v, reach)
+        check_own_processor(chk, v)
 
 
 # ------------------------------------------------------------------------------ R7: a per-thread processor owns its buffers
@@ -476,6 +477,47 @@ void clean(int *res, const double *src, int N) {
     for (int i = 0; i < N && res + i != res + N; i++) res[i] = (int) al[i];
 }
 """
+
+
+def check_own_processor(chk, v):
+    """R10: the Lagrange-domain kernels of the back-end reach the FFT processor only through the polynomial they write (their first,
+    non-const parameter) or through the calling thread's own thread_local object -- never through the `proc` field of a const
+    operand: operands (rows of a shared bootstrapping key) may have been created by another thread, whose processor theirs is
+    (known finding D7: that pointer dangles once the creating thread has exited).  Every term `X->proc->...` with X rooted at a
+    parameter declared pointer-to-const is a violation with the function and the field named."""
+    from sa import summ, sym as _sym
+    from sa.symexec import flat, run_function
+    n = 0
+    for f in v.defined():
+        if not f.file.endswith("lagrangehalfc_impl.cpp") or not f.get("externC", True):
+            continue
+        cpars = {_sym.sym(p_["n"]) for p_ in f.params if (p_["t"] or "").lstrip().startswith("const ") and "*" in (p_["t"] or "")}
+        if not cpars:
+            continue
+        eff = run_function(v, f, hooks=summ.LOCAL_HELPERS)[0]
+        hit = None
+        for x in flat(eff):
+            terms = [x.get(k_) for k_ in ("val", "lv", "cond", "lo", "hi")] + list(x.get("args") or [])
+            for t in terms:
+                if not isinstance(t, tuple):
+                    continue
+                for st_ in _sym.subterms(t):
+                    if st_[0] == "fld" and st_[1][0] == "idx" and st_[1][1][0] == "fld" and st_[1][1][2] == "proc" and _sym.root_of(st_[1][1]) in cpars:
+                        hit = (st_, x.get("l"))
+                        break
+                if hit:
+                    break
+            if hit:
+                break
+        n += 1
+        key = "%s reaches the FFT processor only through the polynomial it writes" % f.name
+        if hit:
+            chk.refuted("R10", key, where="%s:%s" % (f.file, hit[1]), variant=v.name,
+                        detail="reads %s: the processor of a const operand, i.e. of whichever thread created that operand (a row of the shared key), "
+                               "not of the calling thread" % _sym.show(hit[0])[:80])
+        else:
+            chk.proved("R10", key, where=f.where, variant=v.name, detail="no `operand->proc->...` term", nontrivial=False)
+    chk.vcount(v.name, "R10.lagrange_kernels", n)
 
 
 def check_address_independence(chk, v, reach):
